@@ -1028,16 +1028,23 @@ def consume_rule(prj: Project) -> ConsumeRule:
         P = {i: Sym(f"P{i}") for i in (1, 2)}
         T = {i: Sym(f"T{i}") for i in (1, 2)}
         copies = {}
-        state = Sym("S", transition=[(P[i], T[i]) for i in order])
-        me = Sym("pattern", state=state, tokens=[], predicate_map={}, start=0, end=0, automata=Sym("dfa"))
+        # states and automaton are instances of the repo's own classes (their methods are interpreted); the pattern is built by
+        # its own constructor when that is possible, so that whatever helper objects it creates exist
+        state_cls = prj.classes.get("codelimit.common.gsm.automata.State:State")
+        dfa_cls = prj.classes.get("codelimit.common.gsm.automata.DFA:DFA")
+        for i in (1, 2):
+            T[i] = Sym(f"T{i}", _cls=state_cls, transition=[], epsilon_transitions=[], id=100 + i)
+        state = Sym("S", _cls=state_cls, transition=[(P[i], T[i]) for i in order], epsilon_transitions=[], id=100)
+        dfa = Sym("dfa", _cls=dfa_cls, start=state, accepting=[T[1], T[2]], accepting_states=[T[1], T[2]])
         item = Sym("item")
+        me = None
 
         def hook(it, kind, f, args, kwargs, node, cur):
             if kind != "call":
                 return NotImplemented
             if isinstance(f, tuple) and f and f[0] == "method":
                 _, obj, name = f
-                if obj is me:
+                if me is not None and obj is me:
                     m = cls.find_method(name)
                     if m is None:
                         raise Unknown(f"method {name} of Pattern")
@@ -1062,14 +1069,24 @@ def consume_rule(prj: Project) -> ConsumeRule:
             return NotImplemented
         it = MiniInterp(prj, hook)
         try:
+            me = it.construct(cls, [0, dfa], {}, None, fi)
+            if it.getattr(me, "state", fi, None) is not state:
+                raise Unknown("the constructed pattern does not start in the automaton's start state")
+        except (Unknown, PyRaise):
+            me = Sym("pattern", _cls=cls, state=state, tokens=[], predicate_map={}, start=0, end=0, automata=dfa)
+        try:
             v = it.call(fi, [item], {}, self_obj=me)
         except PyRaise as e:
             return ("raise", e.name)
         if v is None:
             return ("none",)
+        try:
+            now = it.getattr(me, "state", fi, None)
+        except (Unknown, PyRaise):
+            now = me.fields.get("state")
         for i in (1, 2):
             if v is T[i]:
-                if me.fields["state"] is not T[i]:
+                if now is not T[i]:
                     return ("returns-without-moving", i)
                 return ("to", i)
         if v is state:
